@@ -89,10 +89,17 @@ func cachePorcupineModel(m *cacheModel) porcupine.Model {
 }
 
 // checkCacheHistory decides a (possibly concurrent) cache history.
-func checkCacheHistory(limit int, relaxed bool, ops []cOp) linResult {
+func checkCacheHistory(limit int, relaxed int, ops []cOp) linResult {
 	m := &cacheModel{limit: limit, relaxed: relaxed}
 	pops := make([]porcupine.Operation, len(ops))
 	for i, o := range ops {
+		if o.in.kind == cDel {
+			for _, p := range ops {
+				if p.in.kind == cSet && p.in.key == o.in.key && p.client != o.client && p.call < o.ret && o.call < p.ret {
+					o.in.raceSet = true
+				}
+			}
+		}
 		pops[i] = porcupine.Operation{ClientId: o.client, Input: o.in, Call: o.call, Output: o.out, Return: o.ret}
 	}
 	ok := porcupine.CheckOperations(cachePorcupineModel(m), pops)
